@@ -35,6 +35,10 @@ def build_pool(seed, n=60):
     pool.append({'src': 'ADC = 3\nfee:\naddi x1, x0, ADC + 1\nj fee\n', 'compress': True, 'dicts': True})
     # text with backslashes that are no escapes (Python itself warns about those: process-wide warning state must not matter)
     pool.append({'src': 'string 50\\% off\nalign 2\nK9 = 1 + 2\naddi x1, x0, K9\nstring a\\qb \\d\nalign 2\n', 'compress': False, 'dicts': True})
+    # a program that refers to symbols the caller supplies in the label table, with shrinking items in front of the references
+    for k in range(2):
+        pool.append({'src': 'li a0, 1\nlui a1, %hi(ext)\naddi a1, a1, %lo(ext)\nmv a2, a1\ncall rom_putc\nown:\nj own\n', 'compress': bool(k), 'dicts': True,
+                     'ext': {'ext': 0x20001000, 'rom_putc': 0x1fff0100}})
     # an expression that binds a name while it is evaluated (`:=`); later programs that use or define that name
     pool.append({'src': 'SIZE = (n := 4) * 4\naddi x1, x0, SIZE\n', 'compress': False, 'dicts': True})
     pool.append({'src': 'M = n + 1\naddi x1, x0, M\n', 'compress': False, 'dicts': True})
@@ -91,6 +95,8 @@ def run_entry(asm, entry, root):
         rng.shuffle(names)
         for n in names:
             labels[n] = 2 * rng.randrange(0, 3000)
+    if entry.get('ext'):
+        labels.update(entry['ext'])          # symbols of the environment (ROM routines, RAM addresses): the caller's input
     kw = {'compress': entry['compress']}
     if entry['dicts']:
         kw.update(labels=labels, constants=constants)
@@ -104,7 +110,11 @@ def run_entry(asm, entry, root):
         src = entry['src']
     try:
         out = bytes(asm.assemble(src, **kw))
-        res = {'ok': True, 'out': out.hex(), 'labels': sorted(labels.items()) if entry.get('stale') else list(labels.items()), 'constants': list(constants.items())}
+        again = None
+        if entry.get('ext'):
+            # the caller keeps its table and builds the same source again: same inputs, same result
+            again = bytes(asm.assemble(src, **kw)).hex()
+        res = {'ok': True, 'out': out.hex(), 'again_with_the_same_tables': again, 'labels': sorted(labels.items()) if entry.get('stale') else list(labels.items()), 'constants': list(constants.items())}
     except Exception as e:  # noqa
         line = getattr(e, 'line', None)
         f = getattr(line, 'file', None)
